@@ -74,4 +74,9 @@ MUTANTS = [
     ("bind-after-push", ["C07", "C05"], D, "                bound = param_signature.bind(*args, **kwargs)\n                bound.apply_defaults()\n\n                memos = push_shape_memo(bound.arguments)", "                memos = push_shape_memo({})\n                bound = param_signature.bind(*args, **kwargs)\n                bound.apply_defaults()"),
     ("staticmethod-as-function", ["C07"], D, "        return staticmethod(jaxtyped(fn.__func__, typechecker=typechecker))", "        return jaxtyped(fn.__func__, typechecker=typechecker)"),
     # (call-with-bound-args: equivalent mutant -- not observable by caller or callee)
+    ("pop-only-on-exception-class", ["C05"], D, "                try:\n                    # Put this in a separate frame to make debugging easier, without\n                    # just always ending up on the `pop_shape_memo` line below.\n                    return wrapped_fn_impl(args, kwargs, bound, memos)\n                finally:\n                    pop_shape_memo()", "                try:\n                    out = wrapped_fn_impl(args, kwargs, bound, memos)\n                except Exception:\n                    pop_shape_memo()\n                    raise\n                pop_shape_memo()\n                return out"),
+    ("context-exit-only-clean", ["C05"], D, "    def __exit__(self, exc_type, exc_value, exc_tb):\n        pop_shape_memo()", "    def __exit__(self, exc_type, exc_value, exc_tb):\n        if exc_type is None:\n            pop_shape_memo()"),
+    ("oldstyle-pop-only-success", ["C05"], D, "                    raise\n                finally:\n                    pop_shape_memo()", "                    raise\n                else:\n                    pop_shape_memo()"),
+    ("toplevel-persistent-dicts", ["C05"], S, "        single_memo = {}\n        variadic_memo = {}", "        single_memo = get_shape_memo.__dict__.setdefault('s', {})\n        variadic_memo = {}"),
+    ("push-shares-arguments", ["C05"], S, "    memos = ({}, {}, {}, arguments.copy())", "    memos = (memo_stack[-1][0] if memo_stack else {}, {}, {}, arguments.copy())"),
 ]
